@@ -73,9 +73,16 @@ def check_C10(tier, replay):
         if not q:
             jobs.append({"kind": "Dist", "id": "dist.n3.longbatch", "n": 3, "l_rand": 5000, "l_and": 2500, "seed": 9, "sample": 300})
             jobs.append({"kind": "Dist", "id": "dist.n3.bucket4", "n": 3, "l_rand": 6200, "l_and": 3100, "seed": 6, "sample": 400})
-        for n in (2, 3) if q else (2, 3, 4, 5):
+        # the trusted dealer for every party count of the statement (it costs next to nothing), also in the quick tier
+        for n in (2, 3, 4, 5):
             for l, la in ((1, 0), (8, 4), (129, 64)) if q else ((1, 0), (2, 1), (8, 4), (129, 64), (1001, 500)):
                 jobs.append({"kind": "Dealer", "id": f"dealer.n{n}.l{l}", "n": n, "l_rand": l, "l_and": la, "seed": 1})
+        if q:
+            # ... and one short distributed batch each for n = 4, 5 (sums over "the other parties" differ from n = 2, 3
+            # only there: an even / odd number of terms, more than two of them)
+            for n, l, la in ((4, 9, 3), (5, 8, 2)):
+                jobs.append({"kind": "Dist", "id": f"dist.n{n}.l{l}", "n": n, "l_rand": l, "l_and": la,
+                             "seed": rng.randrange(1 << 30), "sample": 0})
     res = _judge(v, "C10", "Mon_C10", vlib.MON_CFG, jobs, "pre", wd, lambda x: x["what"].split(":")[0],
                  weight=lambda j: j["n"] * j["n"] * (min(j["l_rand"], j.get("sample") or j["l_rand"]) + 3 * j["l_and"]), budget=120000)
     pm, pstates = ({}, 0)
